@@ -595,6 +595,8 @@ class Contract:
         self.body_key = ns.get("body_key")  # this contract is proved against the body of that function, while callers use the function's own (interface) contract
         self.announce = ns.get("announce", False)  # call sites of this function append a ghost `call` event (key, receiver, first argument)
         self.exact_raises = ns.get("exact_raises", False)  # a library raises exactly the named class, not an unknown subclass
+        self.decorated = ns.get("decorated", False)  # verify the function as its decorators leave it (verify.run_decorated)
+        self.after_decoration = ns.get("after_decoration")
         self.ghost_call = ns.get("ghost_call")  # ghost_call(spec, ctx, **views): python-level record of a call made under this contract (callers' clauses read it)
         self.transparent = ns.get("transparent", False)  # callers execute the real body (inlined) instead of using the contract
         self.delegate = ns.get("delegate")  # (I, **bound) -> value: the abstract callee's outcome IS the outcome of this call (pass-through)
